@@ -225,6 +225,11 @@ fn check_export(s: &mut Suite, what: &str, doc: &Doc, k: &KeyPair) {
 	let pem_text = k.serialize_pem();
 	let ctx_txt = format!("{} origin={} fmt={} kty={} alg={}\nexported={}", what, doc.origin, doc.fmt, doc.kty, alg_name(k.algorithm()), hex(&exported));
 	s.rep.count("exports_checked");
+	// the borrowed accessor hands out the same document as the owning one, and the key is a
+	// local one (no remote signer behind it)
+	if k.serialized_der() != &exported[..] || k.as_remote().is_some() {
+		s.rep.violate("C11:export-accessors-agree", "serialized_der() and serialize_der() hand out different documents (or a local key claims a remote signer)", ctx_txt.clone());
+	}
 	match pem::parse(&pem_text) {
 		Ok(p) => {
 			if p.tag() != "PRIVATE KEY" || p.contents() != &exported[..] {
